@@ -42,6 +42,7 @@ Definition i_sub (a b : Z) : Z := wrap32 (a - b).
 Definition i_mul (a b : Z) : Z := wrap32 (a * b).
 Definition i_neg (a : Z) : Z := wrap32 (- a).
 Definition i_div (a b : Z) : option Z := if b =? 0 then None else Some (wrap32 (Z.quot a b)).   (* ArithmeticException *)
+Definition i_rem (a b : Z) : option Z := if b =? 0 then None else Some (Z.rem a b).                    (* %  sign of the dividend *)
 Definition i_shl (a b : Z) : Z := wrap32 (a * 2 ^ (b mod 32)).
 Definition i_shr (a b : Z) : Z := a / 2 ^ (b mod 32).                               (* >>  arithmetic *)
 Definition i_ushr (a b : Z) : Z := wrap32 ((a mod 2 ^ 32) / 2 ^ (b mod 32)).       (* >>> logical *)
